@@ -562,7 +562,7 @@ def mn_do_slw(ir, instr, ra, rs, rb):
     return ret, []
 
 def mn_do_sraw(ir, instr, ra, rs, rb):
-    rvalue = ExprCond(rb[5:6], ExprInt(0xFFFFFFFF, 32),
+    rvalue = ExprCond(rb[5:6], ExprOp('a>>', rs, ExprInt(31, 32)),
                       ExprOp('a>>', rs, rb & ExprInt(0b11111, 32)))
     ret = [ ExprAssign(ra, rvalue) ]
 
@@ -592,7 +592,8 @@ def mn_do_srawi(ir, instr, ra, rs, imm):
     return ret, []
 
 def mn_do_srw(ir, instr, ra, rs, rb):
-    rvalue = rs >> (rb & ExprInt(0b11111, 32))
+    rvalue = ExprCond(rb[5:6], ExprInt(0, 32),
+                      rs >> (rb & ExprInt(0b11111, 32)))
     ret = [ ExprAssign(ra, rvalue) ]
 
     if instr.name[-1] == '.':
